@@ -1060,6 +1060,16 @@ impl<'a> Gen<'a> {
             let e = match a {
                 K(k) => {
                     let k = if i == 0 { k0 } else { *k };
+                    // the list a fold runs over stays a literal or a record field (<= a handful of
+                    // elements): a lambda may double `so_far` in every step (push [] .so_far .so_far,
+                    // stringify of the fold record), which is exponential in the list length -
+                    // resource exhaustion, outside every property's domain
+                    if s.f == "fold" && i == 0 {
+                        let x = self.leaf(k, env);
+                        prev_kind = k;
+                        args.push(x);
+                        continue;
+                    }
                     let dot_fits = i == 0 && self.cfg.dot_bias && env.chain.first().map(|c| *c != Any && satisfies(*c, k)).unwrap_or(false);
                     let mut x = if dot_fits && self.tape.chance(1, 2) { Expr::dot() } else { self.expr(k, d, env) };
                     // keys that exist: the key argument of get / put / insert_if_absent / replace_if_exists
